@@ -1,16 +1,16 @@
 \* C07/C08 leg A (time and multi-block dimension): stored names {a,b} x {x}, <=2 series each placed on
 \* slots {0},{1},{0,1}; four request ranges (all, last sample of slot 0, the gap between the chunks,
 \* from slot 1 on); head/first block with external labels {} or a="e", a second block with a="e";
-\* replica lists over {a}; <=1 matcher; head and blocks placed independently.  ~1.9M states.
+\* replica lists over {a}; <=1 matcher over {a,b}; head and blocks placed independently.  ~1.1M states.
 SPECIFICATION Spec
 CONSTANTS SNames = {"a", "b"}
           SVals = {"x"}
           ENames = {"a"}
           EVals = {"e"}
           RNames = {"a"}
-          MNames = {"a", "b", "r"}
+          MNames = {"a", "b"}
           MVals = {"x"}
-          AltSeqs <- MC_Alts
+          AltSeqs <- MC_AltOne
           MaxSeries = 2
           MaxMatchers = 1
           SlotSets = {{0}, {1}, {0, 1}}
